@@ -48,11 +48,12 @@ Scratch worktree of cherab-core.  The installed 'cherab' package points at /repo
 ./wtpy here (it makes 'import cherab' resolve to this worktree):
 
   rebuild after editing .pyx/.pxd :  cd $dir && CHERAB_NCPU=4 ./wtpy setup.py build_ext -j4 --inplace     (only edited modules recompile)
-  run the repository test suite   :  cd $dir && ./wtpy pytest -ra -q -p no:cacheprovider --timeout=900 --continue-on-collection-errors
+  run the repository test suite   :  cd $dir && OPENBLAS_NUM_THREADS=1 OMP_NUM_THREADS=1 ./wtpy pytest -ra -q -p no:cacheprovider --timeout=900 --continue-on-collection-errors
   run your own script             :  cd $dir && ./wtpy /path/to/demo.py
   check which cherab is imported  :  ./wtpy -c ... is NOT supported; put code in a .py file
 
-Pure-python edits need no rebuild.
+Pure-python edits need no rebuild.  Always set OPENBLAS_NUM_THREADS=1 OMP_NUM_THREADS=1 for the test suite: the machine is
+shared and one numerical test otherwise oversubscribes it and hits the 900 s timeout (the suite then takes ~1-3 minutes).
 EOF
   echo "created $dir"
   ;;
